@@ -467,7 +467,19 @@ pub fn history_case<F: MonF>(cx: &mut Cx, idx: u64, seed: u64) {
     let mut rng = case_rng(seed, 0xD0D, p, idx);
     let class = (idx % 8) as usize;
     let lmax = HIST_CLASS_LMAX[class];
-    let steps = if class == 7 { rng.range_usize(5, 8) } else { rng.range_usize(5, 30) };
+    // now and then a very long history of tiny products on one object: a call counter or a generation stamp kept in a
+    // 16-bit integer wraps on the way
+    let long = class == 1 && (idx / 8) % 16 == 1;
+    let steps = if long {
+        rng.range_usize(65_540, 65_700)
+    } else if class == 7 {
+        rng.range_usize(5, 8)
+    } else {
+        rng.range_usize(5, 30)
+    };
+    if long {
+        cx.rep.inc("history_twin_sequences_longer_than_2^16");
+    }
     cx.rep.inc("history_twin_sequences");
     let ctor = rng.below(4);
     let mut lived: FFT<F> = match ctor {
@@ -539,6 +551,11 @@ pub fn history_case<F: MonF>(cx: &mut Cx, idx: u64, seed: u64) {
         cx.rep.see_str("history_transitions", if prev_n == 0 { "first" } else if n > prev_n { "grow" } else if n < prev_n { "shrink" } else { "same" });
         prev_n = n;
         let entry = |name: &str| format!("{} {}x{} (n={})", name, la, lb, n);
+        if cx.history.len() > 400 {
+            let drop_n = cx.history.len() - 200;
+            cx.history.drain(1..drop_n);
+            cx.history.insert(1, "... (earlier steps omitted) ...".into());
+        }
         match op {
             0 => {
                 let gl = call!(cx, "multiply", lived.multiply(&pr.a, &pr.b));
@@ -578,7 +595,18 @@ pub fn history_case<F: MonF>(cx: &mut Cx, idx: u64, seed: u64) {
                 cx.history.push(entry("fft_inv_into"));
             }
             5 => {
-                let mut c = call!(cx, "clone", lived.clone());
+                let mut c = if rng.chance(1, 2) {
+                    call!(cx, "clone", lived.clone())
+                } else {
+                    // Clone::clone_from into another object that has a history of its own
+                    let mut o = call!(cx, "new", FFT::<F>::new());
+                    let r = rng.range_usize(0, (4 * lmax).ilog2() as usize + 1);
+                    call!(cx, "update_n", o.update_n(1usize << r));
+                    let _ = call!(cx, "multiply", o.multiply(&[1, -2, 3], &[4, 5]));
+                    call!(cx, "clone_from", o.clone_from(&lived));
+                    cx.rep.inc("clone_from_calls");
+                    o
+                };
                 let gc = call!(cx, "multiply", c.multiply(&pr.a, &pr.b));
                 let gf = {
                     let mut f = call!(cx, "new", FFT::<F>::new());
